@@ -19,6 +19,9 @@ Decided (writer/reader agreement and who-produces, on ast normal forms):
                  the same modifier flags, and the resolution is built before slot.type is overwritten.
   C11.pm-range   the hour arithmetic of to_pm, which _resolve_ampm applies to already-resolved values, maps every
                  hour 0..23 into 0..23.
+  C11.range-order in a date-range parser that merges two parsed dates, the statements adjusting (future/past, begin/end)
+                 are interpreted on every position of two year-less endpoints and the reference in a small model year:
+                 begin <= end must hold afterwards in both resolutions.
 """
 import ast
 
@@ -33,7 +36,8 @@ META = {
             'the resolution keys the merger reads for its type; values under date/time/datetime keys come only from the '
             'zero-padded DateTimeFormatUtil formatters; the min-value filter precedes emission; type_name and inner type '
             'come from the same _determine_date_time_types arguments; to_pm stays within 0..23',
-    'note': 'Not decided: value relations (start < end, a definite TIMEX equals its value, calendar validity of a formatted '
+    'note': 'Not decided: value relations beyond the ordering of year-less date ranges decided by C11.range-order (a definite '
+            'TIMEX equals its value, start < end for other range parsers; calendar validity of a formatted '
             'datetime object is guaranteed by datetime itself), raw datetime(...) constructions from match groups (a ValueError there '
             'is swallowed by Model.parse and loses the entities instead of yielding "not resolved"), options other than NONE '
             '(time-zone and alternative extractors are option-gated and exempt).',
@@ -831,6 +835,148 @@ def rule_pm_range(chk, idx):
 
 
 # ---------------------------------------------------------------------------------------------------
+# C11.range-order: the (begin, end) pair of each resolution of a year-less date range is ordered on every path
+
+from .c09 import Interp, Unreadable, PyRaise     # noqa: E402  (concrete mini-interpreter)
+
+
+def endpoint_defs(fn):
+    """{var: (root name, 'future'|'past')} for `v = <root>.value.future_value` / `.past_value` (tuple forms too)"""
+    out = {}
+
+    def note(t, v):
+        if isinstance(t, ast.Name) and isinstance(v, ast.Attribute) and v.attr in ('future_value', 'past_value') \
+                and isinstance(v.value, ast.Attribute) and v.value.attr == 'value' and isinstance(v.value.value, ast.Name):
+            out[t.id] = (v.value.value.id, v.attr.split('_')[0], None)
+
+    for n in own_walk(fn):
+        if isinstance(n, ast.Assign) and len(n.targets) == 1:
+            t, v = n.targets[0], n.value
+            if isinstance(t, ast.Tuple) and isinstance(v, ast.Tuple) and len(t.elts) == len(v.elts):
+                for x, y in zip(t.elts, v.elts):
+                    note(x, y)
+            else:
+                note(t, v)
+            for k in list(out):
+                if out[k][2] is None and (k == getattr(t, 'id', None) or (isinstance(t, ast.Tuple) and any(
+                        isinstance(x, ast.Name) and x.id == k for x in t.elts))):
+                    out[k] = (out[k][0], out[k][1], n)
+    return out
+
+
+def range_order_scan(idx, mod, cls, fn, period=12):
+    """-> None when the function has no such pattern, else (failures, nprobes, region statements).
+    Model: both endpoints are year-less positions b1, b2 in a `period`-day year; for reference day r each endpoint has
+    past = latest occurrence strictly before r and future = earliest on or after r.  The statements that re-assign the four
+    variables between their definition and the emission are interpreted on every (b1, b2, r)."""
+    defs = endpoint_defs(fn)
+    roots = sorted({d[0] for d in defs.values()})
+    if len(defs) < 4 or len(roots) != 2:
+        return None
+    sinks = {}
+    for n in own_walk(fn):
+        if isinstance(n, ast.Assign) and len(n.targets) == 1 and isinstance(n.targets[0], ast.Attribute) \
+                and n.targets[0].attr in ('future_value', 'past_value') and isinstance(n.value, (ast.List, ast.Tuple)) \
+                and len(n.value.elts) == 2 and all(isinstance(x, ast.Name) and x.id in defs for x in n.value.elts):
+            sinks[n.targets[0].attr] = n
+    if set(sinks) != {'future_value', 'past_value'}:
+        return None
+    par = parents_of(fn)
+    last_def = max((d[2] for d in defs.values()), key=lambda n: n.lineno)
+    block = None
+    for fld in ('body', 'orelse', 'finalbody'):
+        b = getattr(par.get(last_def), fld, None)
+        if isinstance(b, list) and any(x is last_def for x in b):
+            block = b
+    if block is None:
+        raise AnalysisError('%s.%s: cannot locate the block of the endpoint definitions' % (cls.name, fn.name))
+    start = [i for i, x in enumerate(block) if x is last_def][0]
+    first_sink = min(sinks.values(), key=lambda n: n.lineno)
+    region = []
+    for st in block[start + 1:]:
+        if st.lineno >= first_sink.lineno:
+            break
+        assigned = {t.id for n in ast.walk(st) if isinstance(n, (ast.Assign, ast.AugAssign))
+                    for t in (n.targets if isinstance(n, ast.Assign) else [n.target]) if isinstance(t, ast.Name)}
+        if assigned & set(defs):
+            region.append(st)
+    failures, n = [], 0
+    for b1 in range(period):
+        for b2 in range(period):
+            for r in range(period, 2 * period):
+                n += 1
+                pos = dict(zip(roots, (b1, b2)))
+                env = {}
+                for var, (root, which, _) in defs.items():
+                    b = pos[root]
+                    past = max(b + k * period for k in range(-1, 3) if b + k * period < r)
+                    env[var] = past if which == 'past' else past + period
+                it = Interp(idx)
+                try:
+                    it.block(region, env, (mod, cls, fn))
+                except Unreadable as e:
+                    raise AnalysisError('%s.%s: the statements that adjust the range endpoints are not pure compare-and-copy: %s'
+                                        % (cls.name, fn.name, e))
+                except PyRaise as e:
+                    raise AnalysisError('%s.%s: endpoint adjustment cannot be evaluated: %s' % (cls.name, fn.name, e))
+                for attr, node in sorted(sinks.items()):
+                    a, b = (env.get(x.id) for x in node.value.elts)
+                    if not (isinstance(a, int) and isinstance(b, int)):
+                        raise AnalysisError('%s.%s: emitted endpoints are not copies of the parsed endpoints' % (cls.name, fn.name))
+                    if a > b:
+                        failures.append((attr, b1, b2, r, a, b))
+    return failures, n, region
+
+
+RANGE_CONTROL = """
+def merge(self):
+    future_begin = pr1.value.future_value
+    future_end = pr2.value.future_value
+    past_begin = pr1.value.past_value
+    past_end = pr2.value.past_value
+    if future_begin > future_end:
+        future_begin = past_begin
+    elif past_end < past_begin:
+        past_end = future_end
+    result.future_value = [future_begin, future_end]
+    result.past_value = [past_begin, past_end]
+"""
+
+
+def rule_range_order(chk, idx):
+    rid = 'C11.range-order'
+    chk.rule(rid, 'after the endpoint fix-ups of a year-less date range, begin <= end holds in the future and in the past '
+                  'resolution for every position of the reference', floor=1, control=True)
+    cmod = idx.mod(PKG + '.base_dateperiod')
+    ctl = range_order_scan(idx, cmod, idx.cls(PKG + '.base_dateperiod.BaseDatePeriodParser'), ast.parse(RANGE_CONTROL).body[0])
+    chk.control(rid, bool(ctl and ctl[0]))
+    found = 0
+    for c in sorted(idx.all_classes(), key=lambda k: k.qual):
+        if not in_pkg(c) or parser_type_of(idx, c, lambda k: make_evalc(idx, k.mod, k)) != 'daterange':
+            continue
+        for name, fn in sorted(c.methods.items()):
+            if '#' in name:
+                continue
+            res = range_order_scan(idx, c.mod, c, fn)
+            if res is None:
+                continue
+            found += 1
+            failures, n, region = res
+            chk.consulted(c.mod.path)
+            if failures:
+                attr, b1, b2, r, a, b = failures[0]
+                ex = ('e.g. in a year of 12 days with the two endpoints on days %d and %d and the reference on day %d: '
+                      '%s = [%d, %d] (absolute days)' % (b1, b2, r - 12, attr, a, b))
+            chk.judge(not failures, rid, c.mod.path, '%s.%s' % (c.name, name),
+                      '%d reference/endpoint configurations, %d adjusting statement(s); unordered pairs: %d%s'
+                      % (n, len(region), len(failures), (' (%s)' % sorted({f[0] for f in failures})) if failures else ''),
+                      'a resolution keeps its end before its start: %s; %d of %d configurations fail'
+                      % (ex if failures else '', len(failures), n), (region[0].lineno if region else fn.lineno))
+    if not found:
+        raise AnalysisError('no date-range parser function with the (future/past begin/end) endpoint pattern found')
+
+
+# ---------------------------------------------------------------------------------------------------
 
 def run(chk):
     chk.explanation = ('writer/reader agreement between the 22 date-time parser classes and the merged parser (types dispatched, '
@@ -848,6 +994,7 @@ def run(chk):
     rule_min_guard(chk, idx)
     rule_type_flow(chk, idx, merged_parsers)
     rule_pm_range(chk, idx)
+    rule_range_order(chk, idx)
     chk.assume('extractor results carry the type given by extractor_type_name or by the explicit third argument of '
                'merge_all_tokens; DateTimeParseResult(source) copies source.type, which each parser checks against its '
                'parser_type_name; a datetime object always formats to a valid calendar date / clock time')
